@@ -101,15 +101,26 @@ def check_C09(run, replay=None):
         c = dict(c); c["origin"] = "corpus"; cases.append(c)
     ok, log, bins = C.harness_build(["bridge_twin"])
     run.oblige("harness-build bridge_twin (dev, --cfg crux_verif) from the repository's working tree", ok, log[-1500:])
+    seed = run.seed
+    rp = json.load(open(replay)) if replay else None
+    if rp and rp.get("rerun"):
+        seed, histories, max_steps = rp["rerun"]["seed"], rp["rerun"]["histories"], rp["rerun"]["max_steps"]
     if ok:
-        rc, out = C.sh("%s %d %d %d" % (bins["bridge_twin"], run.seed, histories, max_steps), timeout=1200)
-        if rc != 0:
-            run.oblige("harness-run bridge_twin", False, out[-1500:])
+        rc, out = C.sh("%s %d %d %d" % (bins["bridge_twin"], seed, histories, max_steps), timeout=1200)
+        crashed = 0
         for l in out.splitlines():
             if l.startswith("{"):
-                c = json.loads(l); c["origin"] = "generated seed=%d" % run.seed; cases.append(c)
-    if replay:
-        cases = json.load(open(replay)).get("cases", cases)
+                c = json.loads(l)
+                if c.get("harness_panic"): crashed += 1; continue
+                c["origin"] = "generated seed=%d" % seed; cases.append(c)
+        run.oblige("harness-run bridge_twin completed every history", rc == 0 and crashed == 0,
+                   "rc=%d, histories on which the harness's own bookkeeping broke: %d; %s" % (rc, crashed, out[-300:] if rc else ""))
+    if rp:
+        # re-execute: the same seed regenerates the same histories against the current code; keep the recorded ones
+        sel = {(c.get("case"), c.get("codec"), c.get("app")) for c in rp.get("cases", [])}
+        again = [c for c in cases if (c.get("case"), c.get("codec"), c.get("app")) in sel and c.get("origin") != "corpus"]
+        cases = again if (ok and again) else rp.get("cases", cases)
+    rerun = {"seed": seed, "histories": histories, "max_steps": max_steps}
     results = eval_twin(run, "C09", cases)
     hist_in = collections.Counter(); hist_out = collections.Counter(); sizes = collections.Counter()
     bad_ok, bad_model = [], []
@@ -141,14 +152,14 @@ def check_C09(run, replay=None):
     if bad_ok:
         bad_ok.sort(key=lambda x: x[1])
         c, s, k = bad_ok[0]
-        run.violation("C09_ok", {"property": "C09", "what": OK_FIELD.get(k, str(k)), "first_offending_call": s,
+        run.violation("C09_ok", {"property": "C09", "what": OK_FIELD.get(k, str(k)), "first_offending_call": s, "rerun": rerun,
                                  "cases": [shrink_case(c, s)] + [shrink_case(cc, ss) for cc, ss, _ in bad_ok[1:6]],
-                                 "how_to_replay": "./check C09 --replay <this file>; each case is a history with the observations of "
+                                 "how_to_replay": "./check C09 --replay <this file> regenerates the same histories from `rerun` against the current code and re-evaluates them (prefixes of the recorded cases are listed for reading); each case is a history with the observations of "
                                                   "the typed Core (tin/tout/tview) and of the bridge (bout/bview/snap) per call; see coq/Bridge/Twin.v ocall"})
     elif bad_model:
         bad_model.sort(key=lambda x: x[1])
         run.violation("correspondence", {"property": "C09", "what": "bridge model and implementation differ; C09_ok still holds on every trace seen",
-                                         "broken": "correspondence coq/Bridge/Bridge.v vs crux_core::bridge",
+                                         "broken": "correspondence coq/Bridge/Bridge.v vs crux_core::bridge", "rerun": rerun,
                                          "cases": [dict(shrink_case(c, s), differs=DIFF_FIELD.get(k, k), at_call=s) for c, s, k in bad_model[:8]]}, no_input=True)
     run.cov["rule"] = ("histories of 4..%d calls over two apps (Command API + #[effect]; legacy capabilities + derive(Effect)) x two codecs "
                        "(bincode Bridge, serde_json BridgeWithSerializer), each run in lockstep with a typed Core: events with 0..9 effects "
